@@ -355,8 +355,11 @@ func ProjectResult(raw any) M {
 }
 
 // Project maps the real state to the abstract state of spec/Store.tla.
-func (h *H) Project(idx uint64) M {
-	s := h.Store()
+func (h *H) Project(idx uint64) M { return ProjectStore(h.Store(), idx, "") }
+
+// ProjectStore projects any state store; rows of the node skipNode (a running server's own
+// registration, maintained by its leader loop) are left out.
+func ProjectStore(s *state.Store, idx uint64, skipNode string) M {
 	out := M{"idx": idx}
 	kv := []M{}
 	tombs := []M{}
@@ -395,17 +398,17 @@ func (h *H) Project(idx uint64) M {
 			schk = append(schk, M{"node": m.Node, "check": m.CheckID.ID, "sess": Name(m.Session)})
 		case "nodes":
 			n := item.(*structs.Node)
-			if n.PeerName == "" {
+			if n.PeerName == "" && n.Node != skipNode {
 				nodes = append(nodes, M{"name": n.Node, "id": Name(string(n.ID))})
 			}
 		case "services":
 			x := item.(*structs.ServiceNode)
-			if x.PeerName == "" {
+			if x.PeerName == "" && x.Node != skipNode {
 				svcs = append(svcs, M{"node": x.Node, "id": x.ServiceID, "name": x.ServiceName})
 			}
 		case "checks":
 			x := item.(*structs.HealthCheck)
-			if x.PeerName == "" {
+			if x.PeerName == "" && x.Node != skipNode {
 				chks = append(chks, M{"node": x.Node, "id": string(x.CheckID), "status": x.Status, "svc": x.ServiceID,
 					"typ": x.Type, "sname": x.Definition.SessionName})
 			}
@@ -419,7 +422,9 @@ func (h *H) Project(idx uint64) M {
 			pq = append(pq, M{"id": Name(m.ID), "sess": Name(m.Session)})
 		case "coordinates":
 			c := item.(*structs.Coordinate)
-			coords = append(coords, c.Node)
+			if c.Node != skipNode {
+				coords = append(coords, c.Node)
+			}
 		case "index":
 			e := item.(*state.IndexEntry)
 			tix[e.Key] = e.Value
@@ -600,6 +605,39 @@ func DumpNorm(s *state.Store) string {
 			if e, ok := item.(*state.IndexEntry); ok && derivedTables[e.Key] {
 				return true
 			}
+		}
+		rows = append(rows, row)
+		return true
+	})
+	sort.Strings(rows)
+	return strings.Join(rows, "\n")
+}
+
+// SetUUID binds an abstract name to a UUID chosen by the code under test (session ids minted by
+// the Session endpoint).
+func SetUUID(name, u string) {
+	uuidMu.Lock()
+	defer uuidMu.Unlock()
+	uuidFwd[name] = u
+	uuidRev[u] = name
+}
+
+// DumpTables is Dump restricted to the given tables (and index rows), minus rows naming skipNode.
+func DumpTables(s *state.Store, tables map[string]bool, indexRows map[string]bool, skipNode string) string {
+	rows := []string{}
+	_ = s.WalkAllTables(func(table string, item any) bool {
+		if table == "index" {
+			if e, ok := item.(*state.IndexEntry); ok && indexRows[e.Key] {
+				rows = append(rows, fmt.Sprintf("index|%s=%d", e.Key, e.Value))
+			}
+			return true
+		}
+		if !tables[table] {
+			return true
+		}
+		row := table + "|" + strings.Join(strings.Fields(SpewString(item)), " ")
+		if skipNode != "" && strings.Contains(row, `"`+skipNode+`"`) {
+			return true
 		}
 		rows = append(rows, row)
 		return true
